@@ -5,6 +5,7 @@ tier=${1:-quick}
 props=$(python3 -c "import json;print(' '.join(c['property_id'] for c in json.load(open('MANIFEST.json'))['checks']))")
 for p in ${2:-$props}; do
   s=$(date +%s)
-  ./vcheck $p $tier > .build/tmp/run-$p.log 2>&1; rc=$?
-  echo "$p rc=$rc $(( $(date +%s)-s ))s $(grep -a -c '^VIOLATION' .build/tmp/run-$p.log) violations; $(grep -a -c '^KNOWN-FINDING' .build/tmp/run-$p.log) known"
+  log=${VERIF_FROZEN:-.build}/tmp/run-$p.log; mkdir -p $(dirname $log)
+  ./vcheck $p $tier > $log 2>&1; rc=$?
+  echo "$p rc=$rc $(( $(date +%s)-s ))s $(grep -a -c '^VIOLATION' $log) violations; $(grep -a -c '^KNOWN-FINDING' $log) known"
 done
